@@ -167,7 +167,7 @@ Z = {}
 class Entry(object):
   """One pool member."""
   __slots__ = ('fid', 'name', 'fn', 'self_obj', 'globals', 'cells', 'defaults',
-               'kwdefaults', 'droppable', 'dropper', 'cid', 'group', 'rejects', 'calls')
+               'kwdefaults', 'droppable', 'dropper', 'cid', 'group', 'rejects', 'calls', 'mutated')
 
   def __init__(self, fid, name, fn, droppable=False, dropper=None, self_obj=None,
                group=None, rejects=False, calls=()):
@@ -186,6 +186,7 @@ class Entry(object):
     self.group = group
     self.rejects = rejects
     self.calls = calls
+    self.mutated = False
 
 
 def build_universe(lane, u):
@@ -277,7 +278,7 @@ def build_universe(lane, u):
        'lists': lists, 'sink': sink,
        'code_ids': {id(c): i for i, c in enumerate(codes)},
        'code_refs': [weakref.ref(c) for c in codes],
-       'ref_g': {}, 'ref_call': {}, 'worlds': {}}
+       }
   del codes
   return U
 
@@ -288,11 +289,15 @@ def init_zygote(lane):
   Z['universes'] = {}
   U = get_universe(lane, 0)
   feats = _feats(malt, len(FEATSETS) - 1)
-  with common.World():
+
+  def disc():
     pts = faults.discover(
         lambda: malt.to_graph(U['entries'][0].fn, recursive=True,
                               experimental_optional_features=feats),
         boot.REPO_ROOT)
+    return [pts, list(faults.SCOPE_KEYS)]
+  pts, scope = _fork_compute(disc, os.path.join(lane.scratch, 'zygote', 'disc'))
+  faults.SCOPE_KEYS[:] = scope
   Z['points'] = faults.usable_points(pts)
   _install_counters()
 
@@ -377,72 +382,179 @@ def _wrap_transform_function(klass):
 
 
 # ---------------------------------------------------------------------------
-# references (zygote-side, pristine worlds)
+# references: "convert-fresh" computed in forked oracle processes
 # ---------------------------------------------------------------------------
-def _call_args(e, x):
-  return (x, [])
+# Every reference is computed in its own freshly forked copy of the (pristine)
+# zygote image, before the simulation starts, and comes back as plain data
+# (outcomes + operator traces).  A reference therefore cannot share *any* state
+# with the system under test or with another reference - not even a cache or
+# memo that a change to malt introduces and that the harness knows nothing
+# about.  (An earlier version swapped fresh cache instances in-process; a seeded
+# change that added a new module-level memo contaminated those references.)
+class RefError(Exception):
+  pass
 
 
-def _run(fn, e, x, as_bound):
-  """Calls fn the way the op calls it; returns (outcome, list-arg contents)."""
-  l = []
-  if as_bound or e.self_obj is None:
-    o = common.outcome(fn, x, l)
-  else:
-    o = common.outcome(fn, e.self_obj, x, l)
-  return (o[0], common.jsonable(o[1]), common.jsonable(l))
-
-
-def ref_to_graph(U, e, rec, fi):
-  """Reference for to_graph(e.fn, rec, feats): ('fn', G, world) | ('exc', type)."""
-  import malt
-  key = (e.fid, rec, fi)
-  r = U['ref_g'].get(key)
-  if r is None:
-    w = common.World()
-    with w:
+def _fork_compute(thunk, tmpdir):
+  import json
+  import tempfile
+  import traceback
+  r, w = os.pipe()
+  sys.stdout.flush()
+  sys.stderr.flush()
+  pid = os.fork()
+  if pid == 0:
+    code = 0
+    try:
+      os.close(r)
+      os.makedirs(tmpdir, exist_ok=True)
+      tempfile.tempdir = tmpdir
       try:
-        G = malt.to_graph(e.fn, recursive=rec, experimental_optional_features=_feats(malt, fi))
-        r = ('fn', G, w)
-      except Exception as ex:   # noqa: BLE001
-        r = ('exc', type(ex).__name__, None)
-    U['ref_g'][key] = r
-  return r
+        res = {'ok': thunk()}
+      except BaseException:
+        res = {'err': traceback.format_exc()[-2500:]}
+      with os.fdopen(w, 'wb') as f:
+        f.write(json.dumps(res).encode())
+    except BaseException:
+      code = 3
+    finally:
+      os._exit(code)
+  os.close(w)
+  with os.fdopen(r, 'rb') as f:
+    data = f.read()
+  os.waitpid(pid, 0)
+  try:
+    res = json.loads(data.decode())
+  except ValueError:
+    raise RefError('oracle process died without a result')
+  if 'err' in res:
+    raise RefError(res['err'])
+  return res['ok']
 
 
-def ref_g_call(U, e, rec, fi, x):
-  """Reference outcome + operator trace of calling the to_graph reference."""
-  key = ('g', e.fid, rec, fi, x)
-  r = U['ref_call'].get(key)
-  if r is None:
-    ref = ref_to_graph(U, e, rec, fi)
-    if ref[0] != 'fn':
-      r = None
+def _traced_call(g, self_obj, x):
+  l = []
+  with common.optrace() as tr:
+    if self_obj is None:
+      o = common.outcome(g, x, l)
     else:
-      with ref[2], common.optrace() as tr:
-        o = _run(ref[1], e, x, as_bound=False)
-      r = (o, _norm_trace(tr))
-    U['ref_call'][key] = r
-  return r
+      o = common.outcome(g, self_obj, x, l)
+  return [[o[0], common.jsonable(o[1]), common.jsonable(l)], _norm_trace(tr)]
 
 
-def ref_call(U, e, op):
-  """Reference outcome + trace for convert()/converted_call ops."""
+def _rebind(e):
+  """Rebinds the module global K and the integer closure cells of a pool member
+  (the same way in the oracle process and in the run); returns undo thunks."""
+  undo = []
+  if 'K' in e.globals:
+    old = e.globals['K']
+    e.globals['K'] = old + 111
+    undo.append(lambda old=old: e.globals.__setitem__('K', old))
+  for name, cell in e.cells.items():
+    try:
+      oldc = cell.cell_contents
+    except ValueError:
+      continue
+    if isinstance(oldc, int):
+      cell.cell_contents = oldc + 7
+      undo.append(lambda cell=cell, oldc=oldc: setattr(cell, 'cell_contents', oldc))
+  return undo
+
+
+def _probe_sequence(g, e, self_obj, probe_xs):
+  """The probe protocol applied to a served function and to its reference."""
+  out = {}
+  for phase in ('as-is', 'rebound'):
+    undo = _rebind(e) if phase == 'rebound' else []
+    if phase == 'rebound' and not undo:
+      break
+    try:
+      for x in probe_xs:
+        out['%s:%s' % (phase, x)] = _traced_call(g, self_obj, x)
+    finally:
+      for u in undo:
+        u()
+  return out
+
+
+def _ref_tg(U, fid, rec, fi, probe_xs, call_xs):
+  import malt
+  e = U['entries'][fid]
+  try:
+    G = malt.to_graph(e.fn, recursive=rec, experimental_optional_features=_feats(malt, fi))
+  except Exception as ex:   # noqa: BLE001
+    return {'kind': 'exc', 'exc': type(ex).__name__}
+  out = {'kind': 'fn', 'calls': {}}
+  for x in call_xs:
+    out['calls'][str(x)] = _traced_call(G, e.self_obj, x)
+  out['probes'] = _probe_sequence(G, e, e.self_obj, probe_xs)
+  return out
+
+
+def _ref_call(U, fid, op):
   import malt
   from malt.impl import api
   from malt.core import converter
-  if op['op'] == 'cv':
-    okey = ('cv', op['rec'], op['ur'], op['feats'], bool(op.get('disabled')))
-  else:
-    okey = ('cc', op['rec'], op['ur'], op['icuc'], op['feats'], op.get('kw', 'none'), bool(op.get('disabled')))
-  key = (e.fid, okey, op['x'])
-  r = U['ref_call'].get(key)
-  if r is None:
-    with common.World(), common.optrace() as tr:
-      o = _run(_call_thunk(malt, api, converter, e.fn, op), e, op['x'], as_bound=True)
-    r = (o, _norm_trace(tr))
-    U['ref_call'][key] = r
-  return r
+  e = U['entries'][fid]
+  return _traced_call(_call_thunk(malt, api, converter, e.fn, op), None, op['x'])
+
+
+def _load_fresh(base, U, slot, ver):
+  name = 'simfresh_%d' % slot
+  path = os.path.join(base, 'fresh', 's%d_v%d' % (slot, ver), name + '.py')
+  common.write_module(path, VER_SRC % {'c1': 1000 * (slot + 1) + 10 * ver, 'c2': ver % 4})
+  mod = common.load_module(name, path)
+  mod.OUT = U['sink']
+  mod.K = 3 + ver
+  return mod
+
+
+def _ref_fresh(U, op, base):
+  import malt
+  mod = _load_fresh(base, U, op['slot'], op['ver'])
+  try:
+    G = malt.to_graph(mod.vf, recursive=op['rec'], experimental_optional_features=_feats(malt, op['feats']))
+  except Exception as ex:   # noqa: BLE001
+    return {'kind': 'exc', 'exc': type(ex).__name__}
+  return {'kind': 'fn', 'call': _traced_call(G, None, op['x'])}
+
+
+def _apply_mutation(f, what):
+  if what == 'defaults' and f.__defaults__:
+    f.__defaults__ = tuple((d + 100) if isinstance(d, int) else d for d in f.__defaults__)
+    return True
+  if what == 'kwdefaults' and f.__kwdefaults__:
+    f.__kwdefaults__ = {k: (777,) for k in f.__kwdefaults__}
+    return True
+  if what == 'code' and not f.__code__.co_freevars and 'cal_target' in f.__globals__ \
+      and f.__code__ is not f.__globals__['cal_target'].__code__:
+    f.__code__ = f.__globals__['cal_target'].__code__
+    return True
+  return False
+
+
+def _request(malt, api, converter, f, req):
+  """Performs request `req` (tg+call / cv / cc) on f; -> [outcome, trace]."""
+  if req['op'] == 'tg':
+    l = []
+    with common.optrace() as tr:
+      try:
+        g = malt.to_graph(f, recursive=req['rec'], experimental_optional_features=_feats(malt, req['feats']))
+        o = common.outcome(g, req['x'], l)
+      except Exception as ex:   # noqa: BLE001
+        o = ('exc', 'conversion:' + type(ex).__name__)
+    return [[o[0], common.jsonable(o[1]), common.jsonable(l)], _norm_trace(tr)]
+  return _traced_call(_call_thunk(malt, api, converter, f, req), None, req['x'])
+
+
+def _ref_mutate(U, op):
+  import malt
+  from malt.impl import api
+  from malt.core import converter
+  e = U['entries'][op['fid']]
+  if e.fn is None or e.self_obj is not None or not _apply_mutation(e.fn, op['what']):
+    return None
+  return _request(malt, api, converter, e.fn, op['then'])
 
 
 def _call_thunk(malt, api, converter, f, op):
@@ -485,34 +597,53 @@ def _norm_trace(tr):
   return common.jsonable(out)
 
 
-def prepare_refs(lane, plan):
-  """Child-side, before the simulation starts: compute every reference the plan
-  needs (a dropped function cannot be converted later).  Done per run, in the
-  forked child, so that the zygote never changes and a reference never depends
-  on which runs a lane happened to execute before."""
+def _ckey(fid, op):
+  if op['op'] == 'cv':
+    okey = ('cv', op['rec'], op['ur'], op['feats'], bool(op.get('disabled')))
+  else:
+    okey = ('cc', op['rec'], op['ur'], op['icuc'], op['feats'], op.get('kw', 'none'), bool(op.get('disabled')))
+  return ('call', fid, okey, op['x'])
+
+
+def build_refs(lane, plan, rdir):
+  """Run-child side, before the simulation: every reference the plan needs, each
+  from its own oracle fork.  Nothing here depends on run-time events: the
+  reference model is stateless, so the plan alone determines it."""
   U = get_universe(lane, plan['universe'])
-  E = U['entries']
+  refs = {}
+  n = [0]
+
+  def compute(key, thunk):
+    if key not in refs:
+      n[0] += 1
+      refs[key] = _fork_compute(thunk, os.path.join(rdir, 'oracle', 'o%03d' % n[0]))
   optsets = set()
+  call_xs = {}
   for t in plan['threads']:
     for op in t['ops']:
-      if op['op'] == 'fresh':
+      if op['op'] in ('tg', 'fresh'):
         optsets.add((op['rec'], op['feats']))
-        continue
-      e = E[op['fid']]
-      if op['op'] == 'tg':
-        optsets.add((op['rec'], op['feats']))
-        ref_to_graph(U, e, op['rec'], op['feats'])
-        if op.get('call') is not None:
-          ref_g_call(U, e, op['rec'], op['feats'], op['call'])
-      else:
-        ref_call(U, e, op)
-  # post-run probes and R8 need the to_graph references of the pool x option sets in play
+      if op['op'] == 'tg' and op.get('call') is not None:
+        call_xs.setdefault((op['fid'], op['rec'], op['feats']), set()).add(op['call'])
   fids = sorted(set(op['fid'] for t in plan['threads'] for op in t['ops'] if op['fid'] >= 0))
-  for fid in fids:
-    for rec, fi in sorted(optsets):
-      ref_to_graph(U, E[fid], rec, fi)
-      for x in plan['probe_xs']:
-        ref_g_call(U, E[fid], rec, fi, x)
+  faulty = bool(plan['faults']) or plan.get('sub') == 'faulty'
+  want_tg = set((op['fid'], op['rec'], op['feats']) for t in plan['threads'] for op in t['ops'] if op['op'] == 'tg')
+  if faulty:
+    want_tg |= set((fid, rec, fi) for fid in fids for rec, fi in optsets)
+  for fid, rec, fi in sorted(want_tg):
+    xs = sorted(call_xs.get((fid, rec, fi), ()))
+    compute(('tg', fid, rec, fi),
+            lambda fid=fid, rec=rec, fi=fi, xs=xs: _ref_tg(U, fid, rec, fi, plan['probe_xs'], xs))
+  for ti, t in enumerate(plan['threads']):
+    for oi, op in enumerate(t['ops']):
+      if op['op'] in ('cv', 'cc'):
+        compute(_ckey(op['fid'], op), lambda op=op: _ref_call(U, op['fid'], op))
+      elif op['op'] == 'fresh':
+        compute(('fresh', op['slot'], op['ver'], op['rec'], op['feats'], op['x']),
+                lambda op=op: _ref_fresh(U, op, os.path.join(rdir, 'oracle')))
+      elif op['op'] == 'mutate':
+        compute(('mutate', ti, oi), lambda op=op: _ref_mutate(U, op))
+  return refs
 
 
 # ---------------------------------------------------------------------------
@@ -572,6 +703,19 @@ def make_plan(seed, index, tier, sub):
             'x': rng.choice(XS[:5]), 'fid': -1}
       ops = threads[t]['ops']
       ops.insert(rng.randrange(len(ops) + 1), op)
+  # "mutate" ops: edit a function in place right after it was requested, then
+  # repeat that request (copies of the universe live only in this child)
+  if rng.random() < 0.3:
+    cands = [(t, j) for t in range(nthreads) for j, o in enumerate(threads[t]['ops'])
+             if o['op'] in ('tg', 'cv', 'cc') and o['fid'] in (0, 1, 5, 6, 7, 8, 16)]
+    if cands:
+      t, j = rng.choice(cands)
+      o = threads[t]['ops'][j]
+      then = {k: v for k, v in o.items() if k != 'disabled'}
+      if then['op'] == 'tg':
+        then['x'] = o.get('call') if o.get('call') is not None else rng.choice(XS[:5])
+      what = rng.choice(['defaults', 'kwdefaults']) if o['fid'] in (5, 6, 7) else 'code'
+      threads[t]['ops'].insert(j + 1, {'op': 'mutate', 'fid': o['fid'], 'what': what, 'then': then})
   events = []
   droppable = [f for f in fids if f in (0, 1, 3, 4, 6, 7, 8, 9, 10, 13)]
   nev = rng.choice([0, 1, 1, 2, 3]) if nthreads > 1 or rng.random() < 0.5 else 0
@@ -667,14 +811,15 @@ class Run(object):
 
   # -- one op ------------------------------------------------------------------
   def do_fresh(self, tid, i, op):
-    """Load a new version of `vf` into a slot (dropping the previous occupant),
-    compute its convert-fresh reference at once (atomic harness step, pristine
-    world), then request it from the real cache and compare."""
+    """Load a new version of `vf` into a slot (dropping and collecting the
+    previous occupant first), request it from the real cache and compare with
+    the reference the oracle process computed for that version."""
     sim, malt = self.sim, self.malt
     rec = {'t': tid, 'i': i, 'op': op, 'status': None, 'faulted': False}
     self.responses.append(rec)
     slot, ver = op['slot'], op['ver']
     name = 'simfresh_%d' % slot
+    ref = self.refs[('fresh', slot, ver, op['rec'], op['feats'], op['x'])]
     with sched.atomic(sim):
       old = self.slots.pop(slot, None)
       old_id = None
@@ -686,11 +831,7 @@ class Run(object):
       # the old function sits in a cycle with its module dict: it is really
       # freed (and its address becomes reusable) only by a collection
       gc.collect()
-      path = os.path.join(self.rdir, 'fresh', 's%d_v%d' % (slot, ver), name + '.py')
-      common.write_module(path, VER_SRC % {'c1': 1000 * (slot + 1) + 10 * ver, 'c2': ver % 4})
-      mod = common.load_module(name, path)
-      mod.OUT = self.U['sink']
-      mod.K = 3 + ver
+      mod = _load_fresh(self.rdir, self.U, slot, ver)
       f = mod.vf
       code_id = id(f.__code__)
       if old_id is not None and code_id == old_id:
@@ -698,21 +839,11 @@ class Run(object):
       self.n_fresh += 1       # (no reference to the code object is kept: its address must be reusable)
       COUNT['active']['code_ids'][code_id] = 1000 + self.n_fresh
       self.slots[slot] = {'mod': mod, 'code_id': code_id}
-      world = common.World()
-      with world:
-        try:
-          G = malt.to_graph(f, recursive=op['rec'], experimental_optional_features=_feats(malt, op['feats']))
-          l2 = []
-          with common.optrace() as t2:
-            o2 = common.outcome(G, op['x'], l2)
-          exp = ((o2[0], common.jsonable(o2[1]), common.jsonable(l2)), _norm_trace(t2))
-          ref = ('fn', G, world)
-        except Exception as ex:   # noqa: BLE001
-          ref, exp = ('exc', type(ex).__name__, None), None
       sim.probe('fresh_versions_loaded')
     self.inflight[tid] = {'fid': -1}
     sim.point('op', -1, i)
     g = None
+    got = None
     try:
       try:
         g = malt.to_graph(f, recursive=op['rec'], experimental_optional_features=_feats(malt, op['feats']))
@@ -722,30 +853,63 @@ class Run(object):
         rec['exc'] = type(ex).__name__
         rec['msg'] = str(ex)[:200]
       if g is not None:
-        l = []
-        with common.optrace() as tr:
-          o = common.outcome(g, op['x'], l)
-        got = ((o[0], common.jsonable(o[1]), common.jsonable(l)), _norm_trace(tr))
+        got = _traced_call(g, None, op['x'])
     finally:
       self.inflight[tid] = None
     where = 'T%d op%d fresh(slot %d, version %d)' % (tid, i, slot, ver)
     if rec['status'] == 'exc':
-      if ref[0] != 'exc':
+      if ref['kind'] != 'exc':
         self.viol('R1', '%s raised %s (%s) but a fresh conversion succeeds' % (where, rec['exc'], rec.get('msg', '')[:100]),
                   'raised-%s' % rec['exc'])
-    elif ref[0] == 'exc':
-      self.viol('R1', '%s returned a function but a fresh conversion raises %s' % (where, ref[1]), 'should-raise')
+    elif ref['kind'] == 'exc':
+      self.viol('R1', '%s returned a function but a fresh conversion raises %s' % (where, ref['exc']), 'should-raise')
     else:
       if g.__globals__ is not f.__globals__:
         self.viol('R3', '%s: served function uses another module\'s globals' % where, 'globals')
-      self.compare_call(got, exp, where + ' x=%s' % op['x'])
-    sim.note('fresh:%s:%s' % (rec['status'], rec.get('exc') or got[0]))
+      self.compare_call(got, ref['call'], where + ' x=%s' % op['x'])
+    sim.note('fresh:%s:%s' % (rec['status'], rec.get('exc') or (got or [''])[0]))
     with sched.atomic(sim):
-      f = g = G = mod = ref = world = None
+      f = g = mod = None
+
+  def do_mutate(self, tid, i, op):
+    """Edit a function in place (new defaults / keyword-only defaults / code
+    object), then request it again under the options of an earlier request and
+    compare with the reference computed for the edited definition ("a changed
+    function definition is never served stale code")."""
+    sim, malt = self.sim, self.malt
+    e = self.E[op['fid']]
+    rec = {'t': tid, 'i': i, 'op': op, 'status': None, 'faulted': False}
+    self.responses.append(rec)
+    exp = self.refs.get(('mutate', tid, i))
+    with sched.atomic(sim):
+      f = e.fn
+      busy = [o for t, o in self.inflight.items() if o is not None and t != tid and o.get('fid') == op['fid']]
+      if exp is None or f is None or busy or e.self_obj is not None or e.mutated \
+          or not _apply_mutation(f, op['what']):
+        rec['status'] = 'skipped-mutate'
+        return
+      e.mutated = True
+      e.defaults, e.kwdefaults = f.__defaults__, f.__kwdefaults__
+      sim.probe('function_edited_in_place')
+    req = op['then']
+    self.inflight[tid] = {'fid': op['fid']}
+    sim.point('op', op['fid'], i)
+    try:
+      got = _request(malt, self.api, self.converter, f, req)
+      rec['status'] = 'mutated'
+    finally:
+      self.inflight[tid] = None
+    self.compare_call(got, exp, 'T%d op%d %s(%s) after editing its %s in place x=%s'
+                      % (tid, i, req['op'], e.name, op['what'], req['x']))
+    sim.note('mutate:%s' % (got[0],))
+    with sched.atomic(sim):
+      f = None
 
   def do_op(self, tid, i, op):
     if op['op'] == 'fresh':
       return self.do_fresh(tid, i, op)
+    if op['op'] == 'mutate':
+      return self.do_mutate(tid, i, op)
     sim = self.sim
     e = self.E[op['fid']]
     f = e.fn
@@ -753,6 +917,9 @@ class Run(object):
     self.responses.append(rec)
     if f is None:
       rec['status'] = 'skipped-dropped'
+      return
+    if e.mutated:
+      rec['status'] = 'skipped-mutated'     # its precomputed references describe the old definition
       return
     self_obj = e.self_obj
     thunk = g = o = None
@@ -775,6 +942,7 @@ class Run(object):
                                  experimental_optional_features=_feats(self.malt, op['feats']))
           rec['status'] = 'fn'
           rec['served'] = g
+          rec['env'] = (e.globals, e.defaults, e.kwdefaults, dict(e.cells))
         except Exception as ex:   # noqa: BLE001
           rec['status'] = 'exc'
           rec['exc'] = type(ex).__name__
@@ -877,17 +1045,17 @@ class Run(object):
 
   # -- oracle ----------------------------------------------------------------------
   def check_responses(self):
-    U, E = self.U, self.E
+    E = self.E
     for rec in self.responses:
       op = rec['op']
-      if op['op'] == 'fresh':
+      if op['op'] in ('fresh', 'mutate'):
         continue      # compared at once, inside the run
       e = E[op['fid']]
-      if rec['status'] in (None, 'skipped-dropped'):
+      if rec['status'] in (None, 'skipped-dropped', 'skipped-mutated'):
         continue
       where = 'T%d op%d %s(%s)' % (rec['t'], rec['i'], op['op'], e.name)
       if op['op'] == 'tg':
-        ref = U['ref_g'].get((e.fid, op['rec'], op['feats']))
+        ref = self.refs.get(('tg', e.fid, op['rec'], op['feats']))
         if ref is None:
           self.viol('HARNESS', 'missing reference for %s' % where, 'missing-ref')
           continue
@@ -895,48 +1063,39 @@ class Run(object):
           # the injected failure may surface in any form; nothing to compare
           continue
         if rec['status'] == 'exc':
-          if ref[0] != 'exc':
+          if ref['kind'] != 'exc':
             self.viol('R1', '%s raised %s (%s) but a fresh conversion succeeds'
                       % (where, rec['exc'], rec.get('msg', '')[:100]), 'raised-%s' % rec['exc'])
-          elif ref[1] != rec['exc']:
-            self.viol('R1', '%s raised %s, fresh conversion raises %s' % (where, rec['exc'], ref[1]),
+          elif ref['exc'] != rec['exc']:
+            self.viol('R1', '%s raised %s, fresh conversion raises %s' % (where, rec['exc'], ref['exc']),
                       'exc-type')
           continue
-        if ref[0] == 'exc':
-          self.viol('R1', '%s returned a function but a fresh conversion raises %s' % (where, ref[1]),
+        if ref['kind'] == 'exc':
+          self.viol('R1', '%s returned a function but a fresh conversion raises %s' % (where, ref['exc']),
                     'should-raise')
           continue
         self.check_env(rec, e, where)
         if 'call' in rec:
-          exp = U['ref_call'].get(('g', e.fid, op['rec'], op['feats'], op['call']))
-          self.compare_call(rec['call'], exp, where + ' in-run call x=%s' % op['call'])
+          self.compare_call(rec['call'], ref['calls'].get(str(op['call'])), where + ' in-run call x=%s' % op['call'])
         self.probe_served(rec, e, ref, where)
       else:
-        exp = U['ref_call'].get(self._ckey(e, op))
+        exp = self.refs.get(_ckey(e.fid, op))
         if exp is None:
           continue
         if rec['faulted']:
           # fallback must still compute what the function computes (R7 under faults):
           # compare the outcome only, the operator trace legitimately differs
-          if rec['call'][0] != exp[0] and not self._strict():
+          if common.jsonable(rec['call'][0]) != common.jsonable(exp[0]):
             self.viol('R7', '%s (conversion fault injected): result %s, expected %s'
                       % (where, rec['call'][0], exp[0]), 'fallback-result')
           continue
         self.compare_call(rec['call'], exp, where + ' x=%s' % op['x'])
 
-  def _strict(self):
-    return False
-
-  def _ckey(self, e, op):
-    if op['op'] == 'cv':
-      okey = ('cv', op['rec'], op['ur'], op['feats'], bool(op.get('disabled')))
-    else:
-      okey = ('cc', op['rec'], op['ur'], op['icuc'], op['feats'], op.get('kw', 'none'), bool(op.get('disabled')))
-    return (e.fid, okey, op['x'])
-
   def compare_call(self, got, exp, where):
-    if exp is None:
+    if exp is None or got is None:
       return
+    got = common.jsonable(got)
+    exp = common.jsonable(exp)
     if got[0] != exp[0]:
       self.viol('R2', '%s: result %s, fresh conversion gives %s' % (where, got[0], exp[0]),
                 'result-differs')
@@ -955,52 +1114,27 @@ class Run(object):
 
   def check_env(self, rec, e, where):
     g = rec['served']
-    if g.__globals__ is not e.globals:
+    # the requester's environment as it was when the request was served
+    e_globals, e_defaults, e_kwdefaults, e_cells = rec.get('env') or (e.globals, e.defaults, e.kwdefaults, e.cells)
+    if g.__globals__ is not e_globals:
       self.viol('R3', '%s: served function uses another module\'s globals' % where, 'globals')
-    if g.__defaults__ is not e.defaults and not _same_items(g.__defaults__, e.defaults):
+    if g.__defaults__ is not e_defaults and not _same_items(g.__defaults__, e_defaults):
       self.viol('R3', '%s: defaults are not the requester\'s objects' % where, 'defaults')
-    if not _same_map(g.__kwdefaults__, e.kwdefaults):
+    if not _same_map(g.__kwdefaults__, e_kwdefaults):
       self.viol('R3', '%s: keyword-only defaults are not the requester\'s objects' % where, 'kwdefaults')
     cells = dict(zip(g.__code__.co_freevars, g.__closure__ or ()))
-    for name, cell in e.cells.items():
+    for name, cell in e_cells.items():
       if cells.get(name) is not cell:
         self.viol('R3', '%s: closure cell %r is not the requester\'s cell' % (where, name), 'cell')
 
   def probe_served(self, rec, e, ref, where):
-    g, G, world = rec['served'], ref[1], ref[2]
+    g = rec['served']
     self_obj = e.self_obj
-    if e.self_obj is None and e.name.endswith('.m'):
-      return
-    for phase in ('as-is', 'rebound'):
-      undo = []
-      if phase == 'rebound':
-        if 'K' in e.globals:
-          old = e.globals['K']
-          e.globals['K'] = old + 111
-          undo.append(lambda old=old: e.globals.__setitem__('K', old))
-        for name, cell in e.cells.items():
-          try:
-            oldc = cell.cell_contents
-          except ValueError:
-            continue
-          if isinstance(oldc, int):
-            cell.cell_contents = oldc + 7
-            undo.append(lambda cell=cell, oldc=oldc: setattr(cell, 'cell_contents', oldc))
-        if not undo:
-          break
-      try:
-        for x in self.plan['probe_xs']:
-          l1, l2 = [], []
-          with common.optrace() as t1:
-            o1 = common.outcome(g, *(((self_obj,) if self_obj is not None else ()) + (x, l1)))
-          with world, common.optrace() as t2:
-            o2 = common.outcome(G, *(((self_obj,) if self_obj is not None else ()) + (x, l2)))
-          got = ((o1[0], common.jsonable(o1[1]), common.jsonable(l1)), _norm_trace(t1))
-          exp = ((o2[0], common.jsonable(o2[1]), common.jsonable(l2)), _norm_trace(t2))
-          self.compare_call(got, exp, '%s probe x=%s (%s)' % (where, x, phase))
-      finally:
-        for u in undo:
-          u()
+    if self_obj is None and e.name.endswith('.m'):
+      return      # the instance was dropped with the method
+    got = _probe_sequence(g, e, self_obj, self.plan['probe_xs'])
+    for k in sorted(got):
+      self.compare_call(got[k], ref['probes'].get(k), '%s probe %s' % (where, k))
 
   def check_counts(self, act):
     for key, n in act['done'].items():
@@ -1020,10 +1154,10 @@ class Run(object):
       self.inj.disarm_all()
     for fid in fids:
       e = E[fid]
-      if e.fn is None:
+      if e.fn is None or e.mutated:
         continue
       for rec_, fi in optsets:
-        ref = U['ref_g'].get((fid, rec_, fi))
+        ref = self.refs.get(('tg', fid, rec_, fi))
         if ref is None:
           continue
         where = 'recovery to_graph(%s, rec=%s, feats=%d)' % (e.name, rec_, fi)
@@ -1031,12 +1165,12 @@ class Run(object):
           g = self.malt.to_graph(e.fn, recursive=rec_,
                                  experimental_optional_features=_feats(self.malt, fi))
         except Exception as ex:   # noqa: BLE001
-          if ref[0] != 'exc':
+          if ref['kind'] != 'exc':
             self.viol('R8', '%s raised %s: %s' % (where, type(ex).__name__, str(ex)[:100]),
                       'recovery-raised-%s' % type(ex).__name__)
           continue
-        if ref[0] == 'exc':
-          self.viol('R8', '%s returned a function, fresh conversion raises %s' % (where, ref[1]),
+        if ref['kind'] == 'exc':
+          self.viol('R8', '%s returned a function, fresh conversion raises %s' % (where, ref['exc']),
                     'recovery-should-raise')
           continue
         r = {'served': g}
@@ -1075,9 +1209,12 @@ def _same_map(a, b):
 def run_job(lane, job, rdir):
   plan = job['plan'] if job.get('mode') == 'explicit' else make_plan(
       job['seed'], job['index'], job['tier'], job['sub'])
-  prepare_refs(lane, plan)
   schedule = job.get('schedule') if job.get('mode') == 'explicit' else None
   run = Run(lane, plan, schedule, job.get('keep_log', False), rdir)
+  try:
+    run.refs = build_refs(lane, plan, rdir)
+  except RefError as ex:
+    return {'status': 'harness_error', 'detail': 'reference computation failed: %s' % ex, 'plan': plan}
   outcome = run.execute()
   sim = run.sim
   res = {
